@@ -111,11 +111,11 @@ PLAN["C03"] = dict(
           "reached before the end of the input or a suffix starting with SP/HT/CR/LF/digit/quote was tested at the boundary; "
           "distinct by case hash; enumerated strings distinct by construction"),
     quick=[
-        dict(kind="enum", test="TestC03Scope", solo=True, timeout=900),
+        dict(kind="enum", test="TestC03Scope|TestC03Large", solo=True, timeout=900),
         dict(test="TestC03Rapid", checks=8000, shards=8, counts=["C03.prem"]),
     ],
     thorough=[
-        dict(kind="enum", test="TestC03Scope", solo=True, timeout=3000, env={"VERIF_DEPTH": 1}),
+        dict(kind="enum", test="TestC03Scope|TestC03Large", solo=True, timeout=3000, env={"VERIF_DEPTH": 1}),
         dict(test="TestC03Rapid", checks=40000, shards=16, counts=["C03.prem"], timeout=5400),
     ],
 )
